@@ -194,6 +194,8 @@ def check_run(r, cfg):
                         if produced_n >= cap_n:
                             raise V_(R + "._collect_orders_from_normal_agents", "C09 a normal agent is consulted only while fewer than maxNormalOrders agents have produced orders in this step", (t, cap_n, produced_n))
                     else:
+                        if produced_n == 0:
+                            raise V_(R + "._update_markets", "C09 high-frequency agents are consulted only after the batch of a normal agent has been handled (no batch in this step so far)", dict(step=t, agent=e[1]))
                         if produced_h >= cap_h:
                             raise V_(R + "._handle_orders", "C09 a high-frequency agent is consulted only while fewer than maxHighFrequencyOrders of them have produced orders after this batch", (t, cap_h, produced_h))
                         consulted_h += 1
